@@ -383,11 +383,61 @@ def r5(ctx):
     ctx.ob("R5", "a target task re-tests `scheduled` before allocating", ok, func=f, node=f.node, instance="scheduled-test")
 
 
-RULES = [("R1", r1), ("R2", r2), ("R3", r3), ("R4", r4), ("R5", r5)]
-FLOORS = {"R1": 8, "R2": 6, "R3": 8, "R4": 7, "R5": 5}
+def r6(ctx):
+    """A multi-location request never selects the same location twice: the candidate map handed to the policy in
+    `_get_locations` is narrowed after every pick by filtering *itself* (not a fixed superset) on the picked location."""
+    p = ctx.prog
+    f = p.func(f"{SCHED}._get_locations")
+    calls = [c for c in f.calls() if isinstance(c.func, ast.Attribute) and c.func.attr == "get_location"]
+    ctx.require(len(calls) >= 1, "C10.R6: policy call get_location not found in _get_locations")
+    from ..dataflow import defs_of
+    from ..model import ancestors
+
+    for c in calls:
+        loops = [a for a in ancestors(c) if isinstance(a, (ast.For, ast.While))]
+        arg = next((k.value for k in c.keywords if k.arg == "available_locations"), None)
+        if not loops or not isinstance(arg, ast.Name):
+            ctx.ob("R6", "the policy is asked once per requested location with a named candidate map", bool(loops) and isinstance(arg, ast.Name), func=f, node=c,
+                   instance="select:loop")
+            continue
+        loop = loops[0]
+        picked = None
+        par = getattr(c, "_parent", None)
+        while par is not None and not isinstance(par, (ast.NamedExpr, ast.Assign, ast.stmt)):
+            par = getattr(par, "_parent", None)
+        if isinstance(par, ast.NamedExpr):
+            picked = par.target.id
+        elif isinstance(par, ast.Assign) and isinstance(par.targets[0], ast.Name):
+            picked = par.targets[0].id
+        inner = [d for d in defs_of(f, arg.id) if d.stmt is not None and any(a is loop for a in ancestors(d.stmt))]
+        ok = bool(inner) and picked is not None
+        why = "the candidate map is never narrowed inside the selection loop" if not inner else ""
+        for d in inner:
+            v = d.value
+            names = {x.id for x in ast.walk(v) if isinstance(x, ast.Name)} if v is not None else set()
+            src = None
+            if isinstance(v, (ast.DictComp, ast.ListComp, ast.SetComp, ast.GeneratorExp)):
+                it = v.generators[0].iter
+                src = next((x.id for x in ast.walk(it) if isinstance(x, ast.Name)), None)
+            elif isinstance(v, ast.Call):
+                src = next((x.id for a_ in v.args for x in ast.walk(a_) if isinstance(x, ast.Name) and x.id != picked), None)
+            if src != arg.id or picked not in names:
+                ok = False
+                why = (f"`{arg.id}` is rebuilt from `{src}` instead of from itself: a location picked earlier becomes a candidate again"
+                       if src != arg.id else f"the new candidate map does not exclude the picked location `{picked}`")
+        ctx.ob("R6", "after each pick the candidate map is narrowed by filtering itself on the picked location", ok, func=f, node=c, instance="select:narrowing",
+               message=f"_get_locations: {why}: the same location can be selected twice and its capacity is reserved twice although it was tested once")
+
+
+RULES = [("R1", r1), ("R2", r2), ("R3", r3), ("R4", r4), ("R5", r5), ("R6", r6)]
+FLOORS = {"R1": 8, "R2": 6, "R3": 8, "R4": 7, "R5": 5, "R6": 1}
 
 PT = f"{SCHED}._process_target"
 VARIANTS = [
+    V("candidates rebuilt from the full map minus the last pick", SFILE, f"{SCHED}._get_locations",
+      "for k, v in available_locations.items() if v != selected_location}", "for k, v in all_locations.items() if v != selected_location}", "R6"),
+    V("picked location not excluded", SFILE, f"{SCHED}._get_locations", "if v != selected_location}", "if v is not None}", "R6"),
+
     V("notify_status without the lock", SFILE, f"{SCHED}.notify_status", "async with self.wait_queue:", "if True:", "R1", control=True),
     V("allocation moved after the lock", SFILE, PT,
       "async with self.wait_queue:\n        while True:", "async with self.wait_queue:\n        pass\n    if True:\n        while True:", "R2"),
